@@ -15,6 +15,9 @@ type Scenario struct {
 	Setup   func(s *harness.SchedWorld)
 	Threads []func(s *harness.SchedWorld)
 	Post    func(s *harness.SchedWorld) // optional sequential tail run by the main thread after all threads finished
+	// Dynamic, when set, builds the threads from explorer choices (operation
+	// mixes); it runs after Setup and returns the threads plus a description.
+	Dynamic func(s *harness.SchedWorld) ([]func(s *harness.SchedWorld), string)
 	Desc    string
 }
 
@@ -31,9 +34,15 @@ func (sc *Scenario) Exec() explore.Exec {
 				return
 			}
 			rootsBefore = len(harness.AllRoots(s.File.Data))
+			threads := sc.Threads
+			if sc.Dynamic != nil {
+				var d string
+				threads, d = sc.Dynamic(s)
+				s.Hist = append(s.Hist, d)
+			}
 			s.StartConcurrent()
-			n := len(sc.Threads)
-			for _, th := range sc.Threads {
+			n := len(threads)
+			for _, th := range threads {
 				th := th
 				harness.Go(func() {
 					th(s)
@@ -61,14 +70,14 @@ func (sc *Scenario) Exec() explore.Exec {
 		for n, p := range s.Pubs {
 			fmt.Fprintf(&sb, "%s:%d pubs|", n, len(p))
 		}
-		out.Sample = fmt.Sprintf("%s: %d scheduling choices, reads: %s", sc.Name, len(c.Points), sb.String())
+		out.Sample = fmt.Sprintf("%s %s: %d choices, reads: %s", sc.Name, strings.Join(s.Hist, " "), len(c.Points), sb.String())
 		out.ObsHash = harness.HashString(sb.String())
 		out.StateHash = out.ObsHash
 		out.Transitions = int(res.Points)
 		out.NonTrivial = res.Switches > int64(len(sc.Threads))
 		out.Extra = map[string]int64{"switches": res.Switches}
 		for _, v := range s.Viols {
-			out.Viols = append(out.Viols, explore.Viol{Oracle: v.Oracle, Sig: v.Sig, Msg: sc.Name + ": " + v.Msg})
+			out.Viols = append(out.Viols, explore.Viol{Oracle: v.Oracle, Sig: v.Sig, Msg: sc.Name + " " + strings.Join(s.Hist, " ") + ": " + v.Msg})
 		}
 		for _, v := range verdictViol(res, []string{sc.Name}) {
 			out.Viols = append(out.Viols, v)
